@@ -1,83 +1,298 @@
 (** C10 - executable comparison of what the harness observed on the real code
-    with the transcribed programs: for a state (the model run of the committed
-    history prefix) and an operation probed there,
-      - the number of mutating calls of the real clean run = [writes op s],
-      - the real clean run reported an error iff the model does,
-      - with the k-th call failing the real operation reported an error for
-        every k the harness tried (the pattern the theorem gives the model). *)
+    with the transcribed programs run under the regenerated table [T].
+
+    For a state (the model run of the committed history prefix) and an
+    operation probed there:
+      - STATE: the abstract dump of the database file the probes start from is
+        the model's store (every row, every bucket);
+      - CLEAN RUN: the real clean run reported an error iff the model does, and
+        the rows / buckets it added, changed or removed are exactly those of
+        the model's clean run (final bucket contents, not the number of writes);
+      - WRITE COUNT: equal to [writes op s] - or different, which is accepted
+        when every site of the operation propagates in [T] and the
+        implementation's own sweep over ALL its fault positions is clean (every
+        position reported an error): the theorem then covers the model's
+        positions, the sweep the implementation's, and the final state ties
+        the two;
+      - FAULTS: with equal counts, position by position the real operation
+        reported an error iff the model under [T] does (so a site that [T] says
+        is dropped must show in the implementation at exactly the positions
+        [bad_positions] finds, and nowhere else);
+      - MEMORY (address manager): after a failed, rolled-back transaction the
+        categories of queries that answer differently are among those the
+        model's memory predicts for a fault in that call ([mgr_update]); a
+        category the model does not predict is a mismatch.  (Predicted but not
+        observed is accepted: the code may update memory later than the model
+        says, never earlier.) *)
 From stdpp Require Import gmap.
-From Coq Require Import ZArith List Bool.
+From Coq Require Import ZArith List Bool String.
 From Verif Require Import Fault.Fault Fault.FaultTx Fault.FaultMgr.
 Import ListNotations.
 Local Open Scope Z_scope.
 
-(** one probed operation: observed write count, clean run succeeded,
-    per fault position (1-based, as the harness counts) "an error was reported" *)
+(** one fault position: k (1-based, as the harness counts), "an error was
+    reported", index of the call of the transaction during which the fault
+    fired, categories of queries that answered differently after the rollback *)
+Record fault_obs := {
+  fo_k : nat;
+  fo_err : bool;
+  fo_call : nat;
+  fo_cats : list Z
+}.
+
+Definition row := (Z * key * val)%type.
+
 Record observed := {
   o_writes : nat;
   o_clean_ok : bool;
-  o_faults : list (nat * bool)
+  o_faults : list fault_obs;
+  o_put : list row;              (* rows the committed clean run added or changed *)
+  o_del : list (Z * key);        (* rows it removed *)
+  o_new_buckets : list Z;
+  o_gone_buckets : list Z
 }.
 
-Definition faults_ok (o : observed) : bool :=
-  forallb (fun kb => snd kb && Nat.leb 1 (fst kb) && Nat.leb (fst kb) (o_writes o)) (o_faults o).
+(** ** abstract view of a store (what the harness can decode from the file) *)
+Definition proj_val (mgr : bool) (b : Z) (k : key) (v : val) : val :=
+  if mgr && (b =? gMain) then (if key_eqb k kWatchOnly then v else []) else v.
 
-(** every fault position inside the model's write count makes the model fail
-    (this is the theorem; evaluated here on the concrete case as a cross-check
-    of the executable definitions) *)
-Definition model_faults_ok {A} (p : prog A) (s : kv) (o : observed) : bool :=
-  forallb (fun kb => negb (is_ok (fst (fst (run p s O (Some (Nat.pred (fst kb)))))))) (o_faults o).
+Definition rows_of (mgr : bool) (s : kv) : list row :=
+  List.concat (map (fun e => map (fun kv => (fst e, fst kv, proj_val mgr (fst e) (fst kv) (snd kv)))
+                             (map_to_list (snd e))) (map_to_list s)).
+Definition buckets_of (s : kv) : list Z := map fst (map_to_list s).
 
-Definition probe_ok {A} (refusal : Z -> bool) (p : prog A) (s : kv) (o : observed) : bool :=
-  let '(r, _, n) := run p s O None in
-  Nat.eqb n (o_writes o)
-  && Bool.eqb (match r with Ok _ => true | Err (OpErr c) => refusal c | Err Injected => false end) (o_clean_ok o)
-  && faults_ok o
-  && model_faults_ok p s o.
+Definition val_eqb (a b : val) : bool := key_eqb a b.
+Definition has_row (mgr : bool) (s : kv) (r : row) : bool :=
+  let '(b, k, v) := r in
+  match lookup2 s b k with Some v' => val_eqb (proj_val mgr b k v') v | None => false end.
+Definition zmem (x : Z) (l : list Z) : bool := existsb (Z.eqb x) l.
+Definition same_set (a b : list Z) : bool :=
+  Nat.eqb (List.length a) (List.length b) && forallb (fun x => zmem x b) a.
+
+(** the store is exactly the listed rows and buckets *)
+Definition state_ok (mgr : bool) (s : kv) (rows : list row) (bs : list Z) : bool :=
+  Nat.eqb (List.length (rows_of mgr s)) (List.length rows)
+  && forallb (has_row mgr s) rows
+  && same_set (buckets_of s) bs.
+
+(** the change from [s] to [s'] is exactly the listed one *)
+Definition delta_ok (mgr : bool) (s s' : kv) (o : observed) : bool :=
+  let put' := filter (fun r => negb (has_row mgr s r)) (rows_of mgr s') in
+  let del' := filter (fun r => let '(b, k, _) := r in negb (isSome (lookup2 s' b k))) (rows_of mgr s) in
+  Nat.eqb (List.length put') (List.length (o_put o))
+  && forallb (fun r => has_row mgr s' r && negb (has_row mgr s r)) (o_put o)
+  && Nat.eqb (List.length del') (List.length (o_del o))
+  && forallb (fun bk => isSome (lookup2 s (fst bk) (snd bk)) && negb (isSome (lookup2 s' (fst bk) (snd bk)))) (o_del o)
+  && same_set (filter (fun b => negb (zmem b (buckets_of s))) (buckets_of s')) (o_new_buckets o)
+  && same_set (filter (fun b => negb (zmem b (buckets_of s'))) (buckets_of s)) (o_gone_buckets o).
+
+(** the implementation's sweep: every position 1..n was tried and reported an error *)
+Definition impl_sweep_clean (o : observed) : bool :=
+  Nat.eqb (List.length (o_faults o)) (o_writes o)
+  && forallb (fun f => fo_err f && Nat.leb 1 (fo_k f) && Nat.leb (fo_k f) (o_writes o)) (o_faults o).
+
+Definition model_err {A} (T : table) (p : prog A) (s : kv) (k : nat) : bool :=
+  negb (is_ok (fst (fst (run T p s O (Some (Nat.pred k)))))).
+
+(** [cats_ok k call cats]: are the observed categories explained by the model *)
+Definition probe_ok {A} (T : table) (mgr : bool) (refusal : Z -> bool) (sites : list site)
+  (p : prog A) (s : kv) (o : observed) (cats_ok : fault_obs -> bool) : bool :=
+  let '(r, s1, n) := run T p s O None in
+  let clean_ok := match r with Ok _ => true | Err (OpErr c) => refusal c | Err _ => false end in
+  let s' := if is_ok r then s1 else s in
+  Bool.eqb clean_ok (o_clean_ok o)
+  && delta_ok mgr s s' o
+  && (if Nat.eqb n (o_writes o)
+      then forallb (fun f => Bool.eqb (model_err T p s (fo_k f)) (fo_err f)) (o_faults o)
+      else sites_ok T sites && impl_sweep_clean o
+           && forallb (fun k => model_err T p s (S k)) (seq 0 n))
+  && forallb cats_ok (o_faults o).
 
 (** ** transaction store *)
 Record tx_case := {
   tc_universe : list (Z * txd);
+  tc_fresh : bool;                   (* the file only holds the empty namespace bucket *)
   tc_prefix : list tx_event;
+  tc_state : list row;
+  tc_buckets : list Z;
   tc_probes : list (tx_event * observed)
 }.
 
-Definition tx_case_ok (c : tx_case) : bool :=
+Definition tx_state (T : table) (c : tx_case) : Z * kv :=
   let U : universe := list_to_map (tc_universe c) in
-  let st := fold_left (tx_step U) (tc_prefix c) (0, tx_store_init) in
-  forallb (fun eo => probe_ok tx_refusal (tx_prog U (fst st) (fst eo)) (snd st) (snd eo)) (tc_probes c).
+  fold_left (tx_step T U) (tc_prefix c) (0, if tc_fresh c then tx_fresh else tx_store_init).
+
+Definition no_cats (f : fault_obs) : bool := match fo_cats f with [] => true | _ => false end.
+
+Definition tx_case_ok (T : table) (c : tx_case) : bool :=
+  let U : universe := list_to_map (tc_universe c) in
+  let st := tx_state T c in
+  state_ok false (snd st) (tc_state c) (tc_buckets c)
+  && forallb (fun eo => probe_ok T false tx_refusal (tx_sites (fst eo)) (tx_prog U (fst st) (fst eo))
+                                 (snd st) (snd eo) no_cats) (tc_probes c).
 
 (** ** address manager *)
 Record mgr_case := {
+  mc_fresh : bool;
+  mc_locked : bool;                  (* the probes run on a locked manager *)
   mc_prefix : list (list mgr_op);
+  mc_state : list row;
+  mc_buckets : list Z;
   mc_probes : list (list mgr_op * observed)
 }.
 
-Definition mgr_case_ok (c : mgr_case) : bool :=
-  let s := fold_left mgr_step (mc_prefix c) (mgr_init [0; 1; 2; 3] 0 0) in
-  forallb (fun eo => probe_ok (fun _ => false) (mgr_tx (fst eo)) s (snd eo)) (mc_probes c).
+Definition mgr_state (T : table) (c : mgr_case) : kv :=
+  fold_left (mgr_commit T) (mc_prefix c) (if mc_fresh c then mgr_fresh else mgr_init).
+
+(** the memory a fault during call number [j] of the transaction leaves behind:
+    the effects of the calls completed before it (fault-free run of those), and
+    the failing call's own effect when the code applies it before its writes *)
+Definition leaked_mem (T : table) (ops : list mgr_op) (m : mem) (s : kv) (j : nat) : mem :=
+  match run_steps T (map mgr_step_of (firstn j ops)) O m [] s O None with
+  | (_, mj, _, _, _, _) =>
+    match nth_error ops j with
+    | Some o => mem_before (mgr_step_of o) mj
+    | None => mj
+    end
+  end.
+
+Definition mgr_cats_ok (T : table) (ops : list mgr_op) (m : mem) (s : kv) (f : fault_obs) : bool :=
+  if fo_err f
+  then let predicted := mem_cats m (leaked_mem T ops m s (fo_call f)) in
+       forallb (fun c => zmem c predicted) (fo_cats f)
+  else true.
+
+Definition mgr_case_ok (T : table) (c : mgr_case) : bool :=
+  let s := mgr_state T c in
+  let m := mem0 (mc_locked c) in
+  state_ok true s (mc_state c) (mc_buckets c)
+  && forallb (fun eo => probe_ok T true (fun _ => false) (mgr_tx_sites (fst eo)) (mgr_tx (fst eo) m) s (snd eo)
+                                 (mgr_cats_ok T (fst eo) m s)) (mc_probes c).
 
 Inductive case := TxCase (c : tx_case) | MgrCase (c : mgr_case).
 
-Definition case_ok (c : case) : bool :=
-  match c with TxCase c => tx_case_ok c | MgrCase c => mgr_case_ok c end.
+Definition case_ok (T : table) (c : case) : bool :=
+  match c with TxCase c => tx_case_ok T c | MgrCase c => mgr_case_ok T c end.
 
-Fixpoint mismatches_from (i : nat) (l : list case) : list nat :=
+Fixpoint mismatches_from (T : table) (i : nat) (l : list case) : list nat :=
   match l with
   | [] => []
-  | c :: l' => if case_ok c then mismatches_from (S i) l' else i :: mismatches_from (S i) l'
+  | c :: l' => if case_ok T c then mismatches_from T (S i) l' else i :: mismatches_from T (S i) l'
   end.
-Definition mismatches (l : list case) : list nat := mismatches_from O l.
+Definition mismatches (T : table) (l : list case) : list nat := mismatches_from T O l.
 
-(** diagnostics for a failing case: model write count and result class per probe *)
-Definition tx_case_counts (c : tx_case) : list (nat * bool) :=
-  let U : universe := list_to_map (tc_universe c) in
-  let st := fold_left (tx_step U) (tc_prefix c) (0, tx_store_init) in
-  map (fun eo => let '(r, _, n) := run (tx_prog U (fst st) (fst eo)) (snd st) O None in
-                 (n, match r with Ok _ => true | Err (OpErr c) => tx_refusal c | _ => false end))
-      (tc_probes c).
-Definition mgr_case_counts (c : mgr_case) : list (nat * bool) :=
-  let s := fold_left mgr_step (mc_prefix c) (mgr_init [0; 1; 2; 3] 0 0) in
-  map (fun eo => let '(r, _, n) := run (mgr_tx (fst eo)) s O None in (n, is_ok r)) (mc_probes c).
-Definition case_counts (c : case) : list (nat * bool) :=
-  match c with TxCase c => tx_case_counts c | MgrCase c => mgr_case_counts c end.
+(** ** the model's own search: (case, probe, fault position counted from 1) at
+    which the model under [T] reports success inside the writes *)
+Definition case_bad (T : table) (c : case) : list (nat * nat) :=
+  match c with
+  | TxCase c =>
+    let U : universe := list_to_map (tc_universe c) in
+    let st := tx_state T c in
+    List.concat (map (fun ieo => map (fun k => (fst ieo, S k))
+                                 (bad_positions T (tx_prog U (fst st) (fst (snd ieo))) (snd st)))
+                     (combine (seq 0 (List.length (tc_probes c))) (tc_probes c)))
+  | MgrCase c =>
+    let s := mgr_state T c in
+    List.concat (map (fun ieo => map (fun k => (fst ieo, S k))
+                                 (bad_positions T (mgr_tx (fst (snd ieo)) (mem0 (mc_locked c))) s))
+                     (combine (seq 0 (List.length (mc_probes c))) (mc_probes c)))
+  end.
+Definition predicted (T : table) (l : list case) : list (nat * nat * nat) :=
+  List.concat (map (fun ic => map (fun pk => (fst ic, fst pk, snd pk)) (case_bad T (snd ic)))
+                   (combine (seq 0 (List.length l)) l)).
+
+(** ** diagnostics for a failing case: per probe that fails (index, model
+    write count, clean result class of the model, clean result agrees, delta
+    agrees, fault pattern agrees, memory categories explained, rows the model
+    adds/changes) *)
+Definition probe_diag {A} (T : table) (mgr : bool) (refusal : Z -> bool) (sites : list site)
+  (p : prog A) (s : kv) (o : observed) (cats_ok : fault_obs -> bool)
+  : nat * bool * bool * bool * bool * bool * list row :=
+  let '(r, s1, n) := run T p s O None in
+  let s' := if is_ok r then s1 else s in
+  let clean_ok := match r with Ok _ => true | Err (OpErr c) => refusal c | Err _ => false end in
+  (n, clean_ok, Bool.eqb clean_ok (o_clean_ok o), delta_ok mgr s s' o,
+   (if Nat.eqb n (o_writes o)
+    then forallb (fun f => Bool.eqb (model_err T p s (fo_k f)) (fo_err f)) (o_faults o)
+    else sites_ok T sites && impl_sweep_clean o && forallb (fun k => model_err T p s (S k)) (seq 0 n)),
+   forallb cats_ok (o_faults o),
+   filter (fun r => negb (has_row mgr s r)) (rows_of mgr s')).
+
+Definition failing_probes {X} (ok : X -> bool) (l : list X) : list (nat * X) :=
+  filter (fun ix => negb (ok (snd ix))) (combine (seq 0 (List.length l)) l).
+
+Definition case_diag (T : table) (c : case) : bool * list (nat * (nat * bool * bool * bool * bool * bool * list row)) :=
+  match c with
+  | TxCase c =>
+    let U : universe := list_to_map (tc_universe c) in
+    let st := tx_state T c in
+    (state_ok false (snd st) (tc_state c) (tc_buckets c),
+     map (fun ieo => (fst ieo, probe_diag T false tx_refusal (tx_sites (fst (snd ieo)))
+                                          (tx_prog U (fst st) (fst (snd ieo))) (snd st) (snd (snd ieo)) no_cats))
+         (failing_probes (fun eo => probe_ok T false tx_refusal (tx_sites (fst eo)) (tx_prog U (fst st) (fst eo))
+                                             (snd st) (snd eo) no_cats) (tc_probes c)))
+  | MgrCase c =>
+    let s := mgr_state T c in
+    let m := mem0 (mc_locked c) in
+    (state_ok true s (mc_state c) (mc_buckets c),
+     map (fun ieo => (fst ieo, probe_diag T true (fun _ => false) (mgr_tx_sites (fst (snd ieo)))
+                                          (mgr_tx (fst (snd ieo)) m) s (snd (snd ieo))
+                                          (mgr_cats_ok T (fst (snd ieo)) m s)))
+         (failing_probes (fun eo => probe_ok T true (fun _ => false) (mgr_tx_sites (fst eo)) (mgr_tx (fst eo) m) s (snd eo)
+                                             (mgr_cats_ok T (fst eo) m s)) (mc_probes c)))
+  end.
+
+(** rows of the model state that the listed rows lack, and listed rows the
+    model lacks (for a state mismatch) *)
+Definition state_diff (mgr : bool) (s : kv) (rows : list row) : list row * list row :=
+  (filter (fun r => negb (existsb (fun r' => let '(b, k, v) := r in let '(b', k', v') := r' in
+                                             (b =? b') && key_eqb k k' && key_eqb v v') rows)) (rows_of mgr s),
+   filter (fun r => negb (has_row mgr s r)) rows).
+Definition case_state_diff (T : table) (c : case) : list row * list row :=
+  match c with
+  | TxCase c => state_diff false (snd (tx_state T c)) (tc_state c)
+  | MgrCase c => state_diff true (mgr_state T c) (mc_state c)
+  end.
+
+(** ** per kind of operation: do all its sites propagate, and does the source
+    have the memory shape the model gives it *)
+Definition kinds_failing (T : table) : list string :=
+  map fst (filter (fun ke => negb (sites_ok T (tx_sites (snd ke)))) tx_kinds) ++
+  map fst (filter (fun ko => negb (sites_ok T (mgr_sites (snd ko)))) mgr_kinds).
+
+Fixpoint assoc_shape (f : string) (rows : list (string * N)) : option N :=
+  match rows with
+  | [] => None
+  | (f', c) :: rest => if String.eqb f f' then Some c else assoc_shape f rest
+  end.
+Definition shape_ok (shapes : list (string * N)) (o : mgr_op) : bool :=
+  match assoc_shape (mgr_api o) shapes with
+  | Some c => shape_admits (mgr_shape o) c
+  | None => false
+  end.
+Definition shapes_failing (shapes : list (string * N)) : list string :=
+  map fst (filter (fun ko => negb (shape_ok shapes (snd ko))) mgr_kinds).
+Definition sites_not_in_table (rows : list (string * N)) : list site :=
+  filter (fun s => negb (site_in_rows rows s))
+         (List.concat (map (fun ke => tx_sites (snd ke)) tx_kinds) ++
+          List.concat (map (fun ko => mgr_sites (snd ko)) mgr_kinds)).
+
+(** (case, probe, model write count, observed write count) where the two
+    differ (accepted under the conditions of [probe_ok]; reported in the evidence) *)
+Definition case_count_diffs (T : table) (c : case) : list (nat * nat * nat) :=
+  match c with
+  | TxCase c =>
+    let U : universe := list_to_map (tc_universe c) in
+    let st := tx_state T c in
+    List.concat (map (fun ieo => let n := writes T (tx_prog U (fst st) (fst (snd ieo))) (snd st) in
+                                 if Nat.eqb n (o_writes (snd (snd ieo))) then [] else [(fst ieo, n, o_writes (snd (snd ieo)))])
+                     (combine (seq 0 (List.length (tc_probes c))) (tc_probes c)))
+  | MgrCase c =>
+    let s := mgr_state T c in
+    List.concat (map (fun ieo => let n := writes T (mgr_tx (fst (snd ieo)) (mem0 (mc_locked c))) s in
+                                 if Nat.eqb n (o_writes (snd (snd ieo))) then [] else [(fst ieo, n, o_writes (snd (snd ieo)))])
+                     (combine (seq 0 (List.length (mc_probes c))) (mc_probes c)))
+  end.
+Definition count_diffs (T : table) (l : list case) : list (nat * (nat * nat * nat)) :=
+  List.concat (map (fun ic => map (fun d => (fst ic, d)) (case_count_diffs T (snd ic)))
+                   (combine (seq 0 (List.length l)) l)).
